@@ -89,6 +89,10 @@ def structureOps : List Op → List PFr → Option SL
 
 def structureBody (ops : List Op) : Option SL := structureOps ops [⟨4, .empty, [], []⟩]
 
+/-- the operator names `structureOps` gives a structural meaning to -/
+def structuralName (n : String) : Bool :=
+  n = "Block" || n = "Loop" || n = "If" || n = "Else" || n = "End"
+
 mutual
 def SI.flat : SI → List Op
   | .op o => [o]
